@@ -26,7 +26,7 @@ ASSUMPTIONS = [
 
 EXC_NAMES = ['ValueError', 'KeyError', 'RuntimeError', 'ZeroDivisionError',
              'TemporaryPythiaError', 'Exception', 'RpcError', 'IndexError',
-             'AssertionError']
+             'AssertionError', 'NotImplementedError']
 
 _SERVERS = {}
 _COUNTER = [0]
